@@ -46,10 +46,13 @@ def region_function(contract):
     ex = X.extract(contract["target"])
     stmts = X.find_region(ex.node, contract["region"])
     params = [p for p in contract["params"] if not p.startswith("ghost_")]
+    # local helper functions of the enclosing function that are defined outside the region (closures over the live-ins)
+    in_region = {id(n) for st_ in stmts for n in ast.walk(st_)}
+    helpers = [n for n in ast.walk(ex.node) if isinstance(n, ast.FunctionDef) and n is not ex.node and id(n) not in in_region]
     fn = ast.FunctionDef(
         name="__region__",
         args=ast.arguments(posonlyargs=[], args=[ast.arg(arg=p) for p in params], kwonlyargs=[], kw_defaults=[], defaults=[]),
-        body=list(stmts) + [ast.Return(value=ast.Call(func=ast.Name(id="locals", ctx=ast.Load()), args=[], keywords=[]))],
+        body=helpers + list(stmts) + [ast.Return(value=ast.Call(func=ast.Name(id="locals", ctx=ast.Load()), args=[], keywords=[]))],
         decorator_list=[], type_params=[])
     mod = ast.Module(body=[fn], type_ignores=[])
     ast.fix_missing_locations(mod)
@@ -183,6 +186,10 @@ def check_call(contract, classes, args, fn=None, extra=None, label=""):
     """Run the real function on concrete `args` (dict param -> value) and evaluate the contract natively.
     Returns (status, failures): status in {'skipped' (requires false), 'ok', 'violated'}."""
     is_region = "region" in contract
+    if is_region and contract.get("bind_locals") and "resolved_locals" not in contract:
+        from pyvc import extract as _X
+        _ex = _X.extract(contract["target"])
+        contract = _X.resolve_local_names(contract, _X.find_region(_ex.node, contract["region"]))
     if fn is None:
         fn = region_function(contract) if is_region else real_function(contract["target"])[0]
     defs = native_defs(contract)
@@ -222,6 +229,11 @@ def check_call(contract, classes, args, fn=None, extra=None, label=""):
     exc_name, result = None, None
     try:
         result = fn(*call_args)
+    except NameError as exn:
+        if is_region:
+            return "skipped", []      # the region reads a live-in the contract does not know (source restructured): undecided, not a failure
+        exc_name = type(exn).__name__
+        exc_obj = exn
     except Exception as exn:      # the contract decides whether this was allowed
         exc_name = type(exn).__name__
         exc_obj = exn
@@ -236,6 +248,11 @@ def check_call(contract, classes, args, fn=None, extra=None, label=""):
         for i, text in enumerate(contract.get("ensures", [])):
             try:
                 ok = eval_clause(text, env_after, old_env, defs)
+            except NameError as exn:
+                if is_region:
+                    return "skipped", []      # the clause names a local the restructured source no longer has: undecided, not a failure
+                ok = False
+                text = f"{text}  [evaluation raised {type(exn).__name__}: {exn}]"
             except Exception as exn:
                 ok = False
                 text = f"{text}  [evaluation raised {type(exn).__name__}: {exn}]"
